@@ -1,6 +1,7 @@
 package h
 
 import (
+	"crypto/sha256"
 	"fmt"
 	"sort"
 
@@ -99,6 +100,10 @@ func (s *Sim) TakeSnap() Snap {
 				out[fmt.Sprintf("coin/%d/owner", c)] = o.String()
 			}
 		}
+	}
+	if pr := cs.Commission().GetCommissions(); pr != nil {
+		out["commission/table"] = fmt.Sprintf("%x", sha256.Sum256(pr.Encode()))
+		out["commission/failed"] = pr.FailedTx.String()
 	}
 	out["app/coins"] = fmt.Sprint(cs.App().GetCoinsCount())
 	out["app/slashed"] = cs.App().GetTotalSlashed().String()
